@@ -244,6 +244,16 @@ def argcover_rule(R, prefix, only=None):
                 "%s is not the full argspec of the wrapped function" % spec)
         # K is the kwargs of the same call
         R.check(isinstance(K, ast.Name), prefix + ".ARGCOVER", key + ":kwargs", site, "keyword arguments are passed to get_args_tuple", "keyword arguments are not passed to get_args_tuple")
+        # ... and positional / keyword arguments are not exchanged on the way
+        lam = [x for x in ast.walk(f.node) if isinstance(x, ast.Lambda) and any(call is y for y in ast.walk(x.body))]
+        if lam:
+            pp = [a.arg for a in lam[-1].args.args][:2]
+        elif f.node.args.vararg and f.node.args.kwarg:
+            pp = [f.node.args.vararg.arg, f.node.args.kwarg.arg]
+        else:
+            pp = q.param_names(f.node)[:2]
+        R.check([q.src(A), q.src(K)] == pp, prefix + ".ARGCOVER", key + ":order", site, "the key is built from (positional, keyword) arguments in this order",
+                "the key function's parameters %s reach the key builder as (%s, %s): positional and keyword arguments are exchanged" % (pp, q.src(A), q.src(K)))
         # KEY-NORMALISED: the key function returns the normalised tuple on every path
         dedicated = isinstance(f.node, ast.FunctionDef) and len(q.param_names(f.node)) == 2 and not f.node.args.vararg and not q.has_yield(f.node)
         if dedicated and f.name not in ("decorator", "cache_fun") and any(call is x for x in ast.walk(f.node)):
@@ -360,6 +370,25 @@ def run(R):
     _, kv = closure_assign(w, "cache_key")
     srcs = sorted(q.src(v) if k == "expr" else k for k, v in kv)
     R.check("key_fn" in srcs, "C13.KEYFN", dec.qualname, R.site(dec), "a custom key_fn is used when given", "a custom key_fn is ignored")
+    # ... and a usable key function exists on every path to the wrapper (key_fn defaults to None)
+    dcfg_ = cfg_of(dec)
+    defs = [n for n in dcfg_.nodes if n.kind == "stmt" and (
+        (isinstance(n.ast, ast.FunctionDef) and n.ast.name == "cache_key")
+        or (isinstance(n.ast, ast.Assign) and any(q.src(t) == "cache_key" for t in n.ast.targets) and q.src(n.ast.value) != "key_fn" and not q.is_none(n.ast.value)))]
+    wnodes = [n for n in dcfg_.nodes if n.kind == "stmt" and n.ast is w.node]
+    R.need(wnodes, "idiom: the wrapper of alru_cache is not defined directly in its decorator")
+
+    def given(nd):
+        if nd.kind != "test":
+            return None
+        k_, s_, pos_ = q.atom_test(nd.ast)
+        if k_ == "isnone" and s_ in ("cache_key", "key_fn"):
+            return "F" if pos_ else "T"
+        return None
+    p = dcfg_.find_path([dcfg_.entry], wnodes, N, cut_nodes=defs,
+                        keep_edge=lambda e: not (given(dcfg_.nodes[e.src]) is not None and e.label == given(dcfg_.nodes[e.src])))
+    R.check(p is None, "C13.KEYFN", dec.qualname + ":default", R.site(dec), "without key_fn the default key function is defined before the wrapper is built",
+            "alru_cache() without key_fn can reach its wrapper with no key function (None is then called for every lookup)", dcfg_.fmt_path(p) if p else None)
     kc = [c for c in q.calls(w.node) if q.call_name(c) == "cache_key"]
     R.check(len(kc) == 1 and [q.src(a) for a in kc[0].args] == ["args", "kwargs"], "C13.KEYFN", w.qualname, R.site(w),
             "the key is computed from the call's (args, kwargs)", "the key is not computed from the call's (args, kwargs)")
